@@ -200,8 +200,8 @@ inline constexpr void Conversion<Unit::Angle, Unit::Angle::Revolution>::ToStanda
 }
 
 template <typename NumericType>
-inline const std::map<Unit::Angle, std::function<void(NumericType* values, const std::size_t size)>>
-    MapOfConversionsFromStandard<Unit::Angle, NumericType>{
+inline constexpr auto MapOfConversionsFromStandard<Unit::Angle, NumericType>{
+  MakeConversionTable<Unit::Angle, NumericType>({
       {Unit::Angle::Radian,
        Conversions<Unit::Angle, Unit::Angle::Radian>::FromStandard<NumericType>    },
       {Unit::Angle::Degree,
@@ -212,12 +212,12 @@ inline const std::map<Unit::Angle, std::function<void(NumericType* values, const
        Conversions<Unit::Angle, Unit::Angle::Arcsecond>::FromStandard<NumericType> },
       {Unit::Angle::Revolution,
        Conversions<Unit::Angle, Unit::Angle::Revolution>::FromStandard<NumericType>},
+})
 };
 
 template <typename NumericType>
-inline const std::
-    map<Unit::Angle, std::function<void(NumericType* const values, const std::size_t size)>>
-        MapOfConversionsToStandard<Unit::Angle, NumericType>{
+inline constexpr auto MapOfConversionsToStandard<Unit::Angle, NumericType>{
+  MakeConversionTable<Unit::Angle, NumericType>({
           {Unit::Angle::Radian,
            Conversions<Unit::Angle, Unit::Angle::Radian>::ToStandard<NumericType>    },
           {Unit::Angle::Degree,
@@ -228,6 +228,7 @@ inline const std::
            Conversions<Unit::Angle, Unit::Angle::Arcsecond>::ToStandard<NumericType> },
           {Unit::Angle::Revolution,
            Conversions<Unit::Angle, Unit::Angle::Revolution>::ToStandard<NumericType>},
+})
 };
 
 }  // namespace Internal
